@@ -21,6 +21,7 @@ def run(chk, facts, tier):
     chk.rule('context-table', 'the producer path exists as frozen: server::notify/indicate call l2cap_cb_, link_layer::queue_lcap_notification calls connection.queue_notification/queue_indication; '
              'server::l2cap_output calls dequeue_indication_or_confirmation', floor=3)
     chk.rule('shared-field-discipline', 'every store to a queue field that is written from the producer side and from the consumer side is atomic or protected by a lock_guard on the producer path', floor=2)
+    chk.rule('monotone-updates', 'storage shared with the producer is only changed by single compound updates: |= in the producer (add), &= in the consumer (dequeue/remove), plus whole resets (= 0, fill) on connect/clear; no function stores a value computed from an earlier read', floor=5)
     # context table (anchors)
     for fn in variants(facts, 'bluetoe::link_layer::link_layer::queue_lcap_notification', chk):
         ok = bool(fn.body.calls('queue_notification')) and bool(fn.body.calls('queue_indication'))
@@ -64,6 +65,21 @@ def run(chk, facts, tier):
             return '?'
         for f, ws in sorted(writers.items()):
             sides = {side(fn) for fn, op, st in ws}
+            if 'producer' not in sides:
+                continue
+            # monotone discipline: the producer only sets bits (|=), the link layer side only clears bits (&=) or resets everything (= 0 / fill);
+            # a plain assignment of a computed value writes back bits that were read earlier and erases a request queued in between
+            for fn, op, st in ws:
+                if side(fn) == 'producer':
+                    ok = op == '|='
+                    why = 'the producer does not only add its bit'
+                else:
+                    reset = op == 'fill' or (op in ('=', 'init') and any(cval(val) == 0 for tgt, o2, val, s2 in stores(fn.body) if s2 is st and val is not None)) or fn.name == 'notification_queue_impl'
+                    ok = op == '&=' or reset
+                    why = ('%s writes a computed value (%s) to %s: bits read earlier (at()) are written back, so a request added from interrupt context between that read and this store is erased although add() reported it as queued '
+                           '- for a whole function body, not one instruction' % (fn.name, st.text()[:60], f))
+                chk.instance('monotone-updates', fn, '%s %s in %s (%s implementation)' % (f, op, fn.name, 'single-entry' if single else 'general'), ok, '' if ok else why, node=st,
+                             key='%s %s in %s/%s' % (f, op, 'single' if single else 'general', fn.name))
             if not ({'producer', 'consumer'} <= sides):
                 continue
             atomic = 'atomic' in fields[f]['t']
